@@ -239,9 +239,14 @@ fn main() {
             } else if lr_runnable {
                 progress(ci, ii, "lr");
                 let (lm, go, skip_ws) = (cfg.lm, cfg.go, cfg.skip_ws);
+                let anylex = inp.get("lexer").and_then(|x| x.as_str()) == Some("any");
                 let r = timed(timeout_ms, move || {
                     def.install(lm, go);
-                    dynparser::run_lr(def, recs, text, partial_in, skip_ws)
+                    if anylex {
+                        dynparser::run_lr_anylexer(def, recs, text, partial_in)
+                    } else {
+                        dynparser::run_lr(def, recs, text, partial_in, skip_ws)
+                    }
                 });
                 match r {
                     Timed::Done(x) => x,
@@ -273,9 +278,14 @@ fn main() {
                     let (d, r, gi) = (*d, *r, *gi);
                     let (lm, go, skip_ws) = (c.lm, c.go, c.skip_ws);
                     let gpartial = if glr_primary { partial_in } else { c.partial };
+                    let anylex = inp.get("lexer").and_then(|x| x.as_str()) == Some("any");
                     let rr = timed(timeout_ms, move || {
                         d.install(lm, go);
-                        dynparser::run_glr(d, r, text, gpartial, skip_ws, max_trees)
+                        if anylex {
+                            dynparser::run_glr_anylexer(d, r, text, gpartial, max_trees)
+                        } else {
+                            dynparser::run_glr(d, r, text, gpartial, skip_ws, max_trees)
+                        }
                     });
                     match rr {
                         Timed::Done((a, b)) => (a, b, gi),
